@@ -12,15 +12,6 @@ import Fx.Lemmas.EmitPlans
 import Fx.Lemmas.Selects
 namespace Fx
 
-/-- the parameter lists of typedefs and enums as the generic index assigns them (what `C13_typedef_param_consistent` proves of
-    every `Ast` the front end builds; an enum reaches no opaque data) -/
-def paramsOk (a : Ast) : Bool :=
-  a.types.all fun kv =>
-    match kv.2 with
-    | .typedef t => a.isGeneric kv.1 == (t.target.isOpaque || a.targetGeneric t.target)
-    | .enum _ => !(a.isGeneric kv.1)
-    | _ => true
-
 /-! ### looking a declaration up in the emitted module -/
 
 theorem emitTypeDecl_name {a : Ast} {ty : AstType} {d : TypeDecl} (h : emitTypeDecl a ty = some d) :
@@ -356,27 +347,6 @@ theorem emitTypedef_fits {a : Ast} {m : Module} (C : FitsCtx a m) (td : Typedef)
 
 /-! ### unions: patterns against the discriminant's type -/
 
-def isEnumConst (a : Ast) (l : String) : Bool :=
-  match a.getConst l with
-  | some (.enumValue _ _) => true
-  | _ => false
-
-/-- what `Supported` leaves to rustc about the labels of integer-switched unions: the value fits the discriminant's type, and an
-    enum member labels such a union only when the switch is written with the primitive itself (`E::V as u32` is a cast to a
-    primitive; a cast to a typedef'd newtype does not compile) -/
-def labelsTypedU (a : Ast) (u : Union) : Bool :=
-  match discKind a u.switch.varType with
-  | .u32 => (allLabels u).all fun l =>
-      (match labelValue a l with | some v => decide (v < 2^32) | none => false) && (!isEnumConst a l || decide (u.switch.varType = .u32))
-  | .i32 => (allLabels u).all fun l => (!isEnumConst a l || decide (u.switch.varType = .i32))
-  | _ => true
-
-def labelsTyped (a : Ast) : Bool :=
-  a.types.all fun kv =>
-    match kv.2 with
-    | .union u => labelsTypedU a u
-    | _ => true
-
 theorem enumDisc_member {a : Ast} (F : SFacts a) {e' v' : String} (hc : bget v' a.constants = some (.enumValue e' v')) :
     (enumDisc a e' v').isSome = true := by
   obtain ⟨_, en, hen, var, hvar, hvarn⟩ := F.constsWF v' e' v' hc
@@ -571,5 +541,282 @@ theorem union_patterns {a : Ast} {m : Module} (C : FitsCtx a m) (F : SFacts a) (
           exact hint .i32 "i32" (Or.inr ⟨rfl, rfl⟩) (fun l hl => by
             obtain ⟨v, a1, a2, a3, a4, a5, a6⟩ := hi32 hkind l hl
             exact ⟨v, a1, a2, a3, a4, a5, fun he => by rw [hsw] at a6; cases a6 he⟩)
+
+/-! ### unions: variants -/
+
+theorem findVariant_of_mem : ∀ (vs : List (String × Option TyExpr)), (vs.map fun x => nonDigitName x.1).Nodup →
+    ∀ (l : String) (x : Option TyExpr), (l, x) ∈ vs → findVariant vs l = some x := by
+  intro vs
+  induction vs with
+  | nil => intro _ l x h; cases h
+  | cons y ys ih =>
+    intro hnd l x h
+    simp only [List.map_cons, List.nodup_cons] at hnd
+    simp only [findVariant, List.find?_cons]
+    rcases List.mem_cons.mp h with rfl | h
+    · simp
+    · have hne : (nonDigitName y.1 == nonDigitName l) = false := by
+        simp only [beq_eq_false_iff_ne, ne_eq]
+        intro e
+        exact hnd.1 (List.mem_map.mpr ⟨(l, x), h, e.symm⟩)
+      simp only [hne]
+      exact ih hnd.2 l x h
+
+theorem armTy_none {a : Ast} {m : Module} (C : FitsCtx a m) (t : BasicType) (hd : basicDeclared a t = true) :
+    armTy a (.none t) = payloadTy a (.none t) := by
+  cases t with
+  | ident c =>
+    simp only [basicDeclared] at hd
+    simp only [armTy, ArrayType.unwrapArray, payloadTy, C.safe c hd]
+    split <;> rfl
+  | «opaque» => rfl
+  | string => rfl
+  | u32 => rfl | u64 => rfl | i32 => rfl | i64 => rfl | f32 => rfl | f64 => rfl | bool => rfl
+
+/-- a union arm's payload decoder has the type of its variant -/
+theorem arm_payload_fits {a : Ast} {m : Module} (C : FitsCtx a m) (fv : ArrayType) (hf : armTypeOk a fv = true)
+    (fd : FieldDec) (he : decodeArray a fv .useAlias = .ok fd) : fd.fits a m (armTy a fv) = true := by
+  rcases fv with t | ⟨t, sz⟩ | ⟨t, mx⟩
+  · have hdecl : declaratorOk a (.none t) = true ∧ basicDeclared a t = true := by
+      cases t <;> simp only [armTypeOk, declaratorOk, basicDeclared] at hf ⊢ <;> first | exact ⟨hf, hf⟩ | exact ⟨rfl, rfl⟩ | cases hf
+    rw [armTy_none C t hdecl.2]
+    exact decodeArray_alias_fits C (.none t) hdecl.1 fd he
+  · simp [armTypeOk] at hf
+  · simp [armTypeOk] at hf
+
+/-- what `implFits` asks of one arm -/
+def armFits (a : Ast) (m : Module) (st : ScrutTy) (vs : List (String × Option TyExpr)) (arm : Arm) : Bool :=
+  patOk a st arm.pat &&
+    (match findVariant vs arm.variant, arm.payload with
+     | some (some t), some fd => fd.fits a m t
+     | some none, none => true
+     | _, _ => false)
+
+theorem emitUnion_fits {a : Ast} {m : Module} (C : FitsCtx a m) (F : SFacts a) (u : Union) (hu : unionOk a u = true)
+    (hlt : labelsTypedU a u = true) (hvd : variantsDistinctU a u = true) (ud : UnionDec) (he : emitUnion a u = .ok ud) :
+    scrutTyOf a ud.disc ≠ .other ∧
+    ud.arms.all (armFits a m (scrutTyOf a ud.disc) (unionVariants a u)) = true ∧
+    (match ud.tail with
+     | .defaultData fd => (match findVariant (unionVariants a u) "default" with | some (some t) => fd.fits a m t | _ => false)
+     | _ => true) = true := by
+  have hnd : ((unionVariants a u).map fun x => nonDigitName x.1).Nodup := by simpa [variantsDistinctU] using hvd
+  have hu' := hu
+  simp only [unionOk, Bool.and_eq_true] at hu'
+  obtain ⟨⟨⟨⟨⟨_, hcases⟩, hdef⟩, _⟩, _⟩, _⟩ := hu'
+  simp only [emitUnion] at he
+  obtain ⟨disc, hdisc, he⟩ := G.bind_eq_ok he
+  obtain ⟨dataArms, hdata, he⟩ := G.bind_eq_ok he
+  obtain ⟨tail, htail, he⟩ := G.bind_eq_ok he
+  cases he
+  obtain ⟨hst, hpat⟩ := union_patterns C F u hu hlt disc hdisc
+  refine ⟨hst, ?_, ?_⟩
+  · simp only [List.all_append, Bool.and_eq_true]
+    constructor
+    · -- data arms
+      have : ∀ (cs : List UnionCase) (arms : List (List Arm)), (∀ c ∈ cs, c ∈ u.cases) →
+          mapG (emitCase a u.switch.varType) cs = .ok arms →
+          arms.flatten.all (armFits a m (scrutTyOf a disc) (unionVariants a u)) = true := by
+        intro cs
+        induction cs with
+        | nil => intro arms _ h; simp only [mapG] at h; cases h; rfl
+        | cons c rest ih =>
+          intro arms hsub h
+          simp only [mapG] at h
+          obtain ⟨ac, hac, h⟩ := G.bind_eq_ok h
+          obtain ⟨ar, har, h⟩ := G.bind_eq_ok h
+          cases h
+          have hc : c ∈ u.cases := hsub c List.mem_cons_self
+          have hcok := (List.all_eq_true.mp hcases) c hc
+          simp only [Bool.and_eq_true] at hcok
+          simp only [emitCase] at hac
+          obtain ⟨d, hd, hac⟩ := G.bind_eq_ok hac
+          cases hac
+          simp only [List.flatten_cons, List.all_append, Bool.and_eq_true]
+          refine ⟨?_, ih ar (fun x hx => hsub x (List.mem_cons_of_mem _ hx)) har⟩
+          simp only [List.all_map, List.all_eq_true]
+          intro l hl
+          have hmem : (l, some (armTy a c.fieldValue)) ∈ unionVariants a u := by
+            simp only [unionVariants, List.mem_append, List.mem_flatten, List.mem_map]
+            exact Or.inl (Or.inl ⟨_, ⟨c, hc, rfl⟩, List.mem_map.mpr ⟨l, hl, rfl⟩⟩)
+          simp only [Function.comp, armFits, hpat l (allLabels_mem_case hc hl), findVariant_of_mem _ hnd l _ hmem, Bool.true_and]
+          exact arm_payload_fits C c.fieldValue hcok.1 d hd
+      exact this u.cases dataArms (fun c hc => hc) hdata
+    · -- void arms
+      simp only [List.all_map, List.all_eq_true]
+      intro l hl
+      have hmem : (l, (none : Option TyExpr)) ∈ unionVariants a u := by
+        simp only [unionVariants, List.mem_append, List.mem_map]
+        exact Or.inl (Or.inr ⟨l, hl, rfl⟩)
+      simp only [Function.comp, emitVoid]
+      split
+      · simp only [armFits, patOk, findVariant_of_mem _ hnd l _ hmem, Bool.true_and]
+      · rename_i hne
+        have hne' : l ≠ "default" := by simpa using hne
+        simp only [armFits, hpat l (allLabels_mem_void hl hne'), findVariant_of_mem _ hnd l _ hmem, Bool.true_and]
+  · cases hd : u.default with
+    | none =>
+      simp only [hd] at htail
+      cases htail
+      cases u.voidCases.contains "default" <;> rfl
+    | some d =>
+      simp only [hd] at htail hdef
+      obtain ⟨dd, hdd, htail⟩ := G.bind_eq_ok htail
+      cases htail
+      simp only [Bool.and_eq_true] at hdef
+      have hmem : ("default", some (armTy a d.fieldValue)) ∈ unionVariants a u := by
+        simp [unionVariants, hd]
+      simp only [findVariant_of_mem _ hnd "default" _ hmem]
+      exact arm_payload_fits C d.fieldValue hdef.1.1 dd hdd
+
+/-! ### assembly -/
+
+theorem emitTypeDecl_typedef {a : Ast} {td : Typedef} (h : typedefOk a td = true) :
+    ∃ sp, emitTypeDecl a (.typedef td) =
+      some (.typedef td.alias.unwrapArray.asStr (td.target.isOpaque || a.targetGeneric td.target) sp (typedefInner a td)) := by
+  obtain ⟨al, hal⟩ := typedefOk_alias_ident h
+  simp only [typedefOk, Bool.and_eq_true, hal] at h
+  have hne : (td.target == td.alias.unwrapArray) = false := by
+    rw [hal]
+    cases ht : td.target with
+    | ident n =>
+      have : al ≠ n := by simpa [ht, BasicType.asStr] using h.1
+      have hb : (BasicType.ident n == BasicType.ident al) = (n == al) := rfl
+      rw [hb]
+      simpa using fun e => this e.symm
+    | _ => rfl
+  by_cases ho : td.target.isOpaque = true
+  · exact ⟨false, by simp [emitTypeDecl, hne, typedefInner, ho]⟩
+  · by_cases hg : a.targetGeneric td.target = true
+    · exact ⟨true, by simp [emitTypeDecl, hne, typedefInner, ho, hg]; cases td.alias <;> rfl⟩
+    · exact ⟨false, by simp [emitTypeDecl, hne, typedefInner, ho, hg]; cases td.alias <;> rfl⟩
+
+theorem fitsCtx_of_supported {a : Ast} {m : Module} (hs : Supported a = true) (hp : paramsOk a = true)
+    (hg : generateModule a = .ok m) : FitsCtx a m := by
+  obtain ⟨hkeys, htypes, _, _, _⟩ := Supported.facts hs
+  obtain ⟨hkn, hsafe, _⟩ := keysOk_facts hkeys
+  obtain ⟨hty, _, _, _⟩ := generateModule_ok hg
+  refine ⟨hty, hkn, ?_, ?_⟩
+  · intro n hd
+    simp only [declared] at hd
+    cases hb : bget n a.types with
+    | none => simp [hb] at hd
+    | some ty => exact hsafe (n, ty) (bget_mem hb)
+  · intro n hd
+    simp only [declared] at hd
+    cases hb : bget n a.types with
+    | none => simp [hb] at hd
+    | some ty =>
+      have hmem := bget_mem hb
+      have hname : n = ty.rustName := hkn (n, ty) hmem
+      have hok : typeOk a ty = true := (List.all_eq_true.mp htypes) (n, ty) hmem
+      have hpar := (List.all_eq_true.mp hp) (n, ty) hmem
+      cases ty with
+      | struct s =>
+        refine ⟨_, findDecl_of_types hty hkn hb rfl, ?_⟩
+        simp only [declGeneric, hname, AstType.rustName]
+      | union u =>
+        refine ⟨_, findDecl_of_types hty hkn hb rfl, ?_⟩
+        simp only [declGeneric, hname, AstType.rustName]
+      | enum e =>
+        refine ⟨_, findDecl_of_types hty hkn hb rfl, ?_⟩
+        simp only at hpar
+        simp only [declGeneric]
+        simpa using hpar.symm
+      | typedef td =>
+        simp only [typeOk] at hok
+        obtain ⟨sp, hdcl⟩ := emitTypeDecl_typedef (a := a) hok
+        refine ⟨_, findDecl_of_types hty hkn hb hdcl, ?_⟩
+        simp only at hpar
+        simp only [declGeneric]
+        exact (by simpa using hpar : a.isGeneric n = (td.target.isOpaque || a.targetGeneric td.target)).symm
+
+/-- **the three emitters agree.**  For every supported specification whose parameter lists are the generic index's
+    (`paramsOk`), whose integer labels fit the discriminant (`labelsTyped`) and whose labels give distinct variant names
+    (`variantsDistinct`): every decoder the decoder emitter writes fits the declaration the type emitter writes for the same
+    name — `implFits`, the type part of the judgement that stands in for rustc. -/
+theorem decoders_fit {a : Ast} {m : Module} (hs : Supported a = true) (hp : paramsOk a = true) (hl : labelsTyped a = true)
+    (hv : variantsDistinct a = true) (hg : generateModule a = .ok m) : m.fromRefMut.all (implFits a m) = true := by
+  have C := fitsCtx_of_supported hs hp hg
+  have F := sfacts_of_supported hs
+  obtain ⟨hkeys, htypes, _, _, _⟩ := Supported.facts hs
+  obtain ⟨hkn, _, hsorted⟩ := keysOk_facts hkeys
+  obtain ⟨hty, _, h2, _⟩ := generateModule_ok hg
+  have hplans := (supported_plans hs hg).1
+  rw [List.all_eq_true]
+  intro i hi
+  obtain ⟨ty, htyin, he⟩ := mapG_mem _ _ h2 i hi
+  obtain ⟨kv, hkv, rfl⟩ := List.mem_map.mp htyin
+  obtain ⟨k, ty⟩ := kv
+  have hb : bget k a.types = some ty := bget_of_mem_sorted hsorted hkv
+  have hk : k = ty.rustName := hkn (k, ty) hkv
+  have hok : typeOk a ty = true := (List.all_eq_true.mp htypes) (k, ty) hkv
+  have hname : i.name = k := by rw [emitImpl_name he, hk]
+  have hbody : i.body.okFor m.plans = true := (List.all_eq_true.mp hplans) i hi
+  have hgen : i.generic = a.isGeneric k := by rw [emitImpl_generic he, hk]
+  obtain ⟨d0, hd0, hg0⟩ := C.decl k (by simp [declared, hb])
+  simp only [implFits, hname]
+  cases ty with
+  | struct s =>
+    have hd : findDecl m k = some (.struct s.name (a.isGeneric s.name) (s.fields.map fun f => (f.fieldName, fieldDeclTy a f))) :=
+      findDecl_of_types hty hkn hb rfl
+    simp only [emitImpl] at he
+    obtain ⟨fs, hfs, he⟩ := G.bind_eq_ok he
+    cases he
+    simp only [typeOk, Bool.and_eq_true] at hok
+    obtain ⟨hlen, hz⟩ := emitStructFields_fit C s.fields fs hok.2 hfs
+    simp only [hd, declGeneric, beq_self_eq_true, Bool.true_and, hbody, List.length_map, hlen]
+    exact hz
+  | union u =>
+    have hd : findDecl m k = some (.union u.name (a.isGeneric u.name) (unionVariants a u)) := findDecl_of_types hty hkn hb rfl
+    simp only [emitImpl] at he
+    obtain ⟨ud, hud, he⟩ := G.bind_eq_ok he
+    cases he
+    simp only [typeOk] at hok
+    have hlu : labelsTypedU a u = true := by
+      have := (List.all_eq_true.mp hl) (k, .union u) hkv
+      simpa using this
+    have hvu : variantsDistinctU a u = true := by
+      have := (List.all_eq_true.mp hv) (k, .union u) hkv
+      simpa using this
+    obtain ⟨hst, harms, htail⟩ := emitUnion_fits C F u hok hlu hvu ud hud
+    simp only [hd, declGeneric, beq_self_eq_true, Bool.true_and, hbody, bne_iff_ne, ne_eq, hst, not_false_eq_true, decide_true]
+    simp only [Bool.and_eq_true]
+    exact ⟨⟨by simpa using hst, harms⟩, htail⟩
+  | enum e =>
+    have hd : findDecl m k = some (.enum e.name (e.variants.map fun v => (v.name, v.value.display))) := findDecl_of_types hty hkn hb rfl
+    simp only [emitImpl] at he
+    cases he
+    simp only [typeOk, enumOk, Bool.and_eq_true] at hok
+    simp only [hd, declGeneric, hbody, Bool.and_true]
+    rw [hd] at hd0; cases hd0
+    simp only [declGeneric] at hg0
+    have hge : a.isGeneric e.name = false := by rw [hg0, hk]; rfl
+    simp only [hge, beq_self_eq_true, Bool.true_and, List.all_map, List.all_eq_true, Function.comp]
+    intro v hvm
+    have hnum := (List.all_eq_true.mp hok.1.2) v hvm
+    simp only [Function.comp, Bool.and_eq_true]
+    constructor
+    · cases hval : v.value with
+      | numeric n => simpa [hval] using hnum
+      | str t => simp [hval] at hnum
+    · simp only [List.any_map, List.any_eq_true]
+      exact ⟨v, hvm, by simp⟩
+  | typedef td =>
+    simp only [typeOk] at hok
+    obtain ⟨sp, hdcl⟩ := emitTypeDecl_typedef (a := a) hok
+    have hd := findDecl_of_types hty hkn hb hdcl
+    simp only [emitImpl] at he
+    obtain ⟨fd, hfd, he⟩ := G.bind_eq_ok he
+    cases he
+    have hself : a.getType td.alias.unwrapArray.asStr = some (.typedef td) := by
+      simp only [Ast.getType]
+      have : td.alias.unwrapArray.asStr = k := by rw [hk]; rfl
+      rw [this]; exact hb
+    rw [hd] at hd0; cases hd0
+    simp only [declGeneric] at hg0
+    simp only [hd, declGeneric, hbody, Bool.and_true, hg0]
+    have : a.isGeneric k = a.isGeneric td.alias.unwrapArray.asStr := by rw [hk]; rfl
+    simp only [this, beq_self_eq_true, Bool.true_and]
+    exact emitTypedef_fits C td hok hself fd hfd
 
 end Fx
